@@ -33,9 +33,21 @@ from ..common import SLOT
 from ..runner import Exploration, Failure
 
 # Which variant of lean/Model/Final.lean mirrors the tree in /repo (Handlers/HC18.lean):
-#   0 = the code as it is (open findings below), 1 = proposed_fixes/C18_1.diff applied,
-#   2 = C18_2.diff applied, 3 = both.  Flip it in the commit that adopts a patch in /repo.
-CODE_VARIANT = int(os.environ.get('VERIF_C18_VARIANT', '0'))     # the override is for trying a candidate patch
+#   bit 0 = proposed_fixes/C18_1.diff applied (loop variable no longer returned),
+#   bit 1 = proposed_fixes/C18_2.diff applied (final-flagged state entered with non-final children fires).
+# The model follows the code: once a finding is marked "fixed" in known_findings.json (the commit that
+# adopts its patch in /repo) the corresponding switch is on.  VERIF_C18_VARIANT overrides, for trying a
+# candidate patch in a scratch worktree (VERIF_REPO=<worktree> VERIF_C18_VARIANT=1|2|3 ./vcheck run C18).
+
+
+def code_variant():
+    if os.environ.get('VERIF_C18_VARIANT'):
+        return int(os.environ['VERIF_C18_VARIANT'])
+    fixed = set(f.get('id') for f in common.load_known_findings() if f.get('status') == 'fixed')
+    return (1 if 'F-C18-final-check-loop-variable' in fixed else 0) + (2 if 'F-C18-final-compound-never-fires' in fixed else 0)
+
+
+CODE_VARIANT = code_variant()
 
 SIG_LEAK = 'C18:_final_check:loop-variable-is_final-returned:last-child-final'
 SIG_ATTR = 'C18:_final_check:root-scope-scoped_enter-AttributeError:after-leak'
@@ -213,41 +225,56 @@ def nontrivial_key(d, finals, info):
     return hashlib.sha1(repr((finals, info['roots'], sorted(info['E']))).encode()).hexdigest()[:14]
 
 
-def judge_nested_case(case, ex=None):
-    """run one nested case (fresh machine) and judge it; returns failures"""
-    ex = ex or Exploration()
+def run_nested(case, ex, pend, fails):
+    """phase 1 for one case on a fresh machine"""
     d = nfinal.NDesc.from_json(case['desc'])
     finals = [bool(n['final']) for n in d.nodes]
-    fails, pend = [], []
     try:
         with watchdog():
             run = nfinal.NRun(d).run()
     except Hang:
-        return [Failure('monitor', 'hang', case, {}, signature='C18.hang')]
+        fails.append(Failure('monitor', 'hang', case, {}, signature='C18.hang'))
+        return d
     collect(d, finals, run.log, case, ex, pend, fails)
+    return d
+
+
+def judge_nested_case(case, ex=None):
+    """run one nested case (fresh machine) and judge it; returns failures"""
+    ex = ex or Exploration()
+    fails, pend = [], []
+    d = run_nested(case, ex, pend, fails)
     settle(pend, ex, fails)
     for p in pend:
         if p.info['want']:
-            ex.nontrivial.add(nontrivial_key(d, finals, p.info))
+            ex.nontrivial.add(nontrivial_key(d, p.finals, p.info))
     return fails
 
 
-def chunk_nested(seed, idx, n, tier):
+def chunk_nested(seed, idx, n, deadline):
     rng = random.Random('C18/nested/%d/%d' % (seed, idx))
     ex = Exploration()
     kn = nfinal.Knobs()
+    fails, pend = [], []
     for k in range(n):
+        if k >= 8 and time.time() > deadline:
+            bump(ex.stats, 'cases_not_run_after_deadline', 'nested', n - k)
+            break
         d = nfinal.gen_desc(rng, kn, kind=(k + idx) % 2)
         case = {'part': 'nested', 'desc': d.to_json()}
         ex.evaluations += 1
         bump(ex.stats, 'class', 'HierarchicalAsyncMachine' if d.kind else 'HierarchicalMachine')
         bump(ex.stats, 'n_states', len(d.nodes))
         bump(ex.stats, 'tree_depth', max(d.depth(i) for i in range(len(d.nodes))) + 1)
-        fs = judge_nested_case(case, ex)
-        ex.failures += fs
-        if len(ex.samples) < 1 and not fs:
+        run_nested(case, ex, pend, fails)
+        if len(ex.samples) < 1 and k == 3:
             ex.samples.append({'part': 'nested', 'states': len(d.nodes), 'history': [list(h) for h in d.history],
                                'final_flags': [i for i, nd in enumerate(d.nodes) if nd['final']]})
+    settle(pend, ex, fails)       # one driver batch per chunk
+    for p in pend:
+        if p.info['want']:
+            ex.nontrivial.add(nontrivial_key(p.d, p.finals, p.info))
+    ex.failures += fails
     return ex
 
 
@@ -260,14 +287,18 @@ def placements(n):
         yield [bool(bits >> i & 1) for i in range(n)]
 
 
-def chunk_small(n, lo, hi, kind, deadline, stride):
+def chunk_small(n, lo, hi, kind, deadline, hard, stride):
     """shapes lo..hi-1 (in enumeration order) with n states: every final-flag placement (every
-    `stride`-th once the deadline has passed) x the single-transition history, on ONE machine per shape
-    (flags are re-placed through the public `State.final` attribute, the model is put back to the initial
-    configuration)"""
+    `stride`-th once `deadline` has passed; the shape is skipped after `hard`) x the single-transition
+    history, on ONE machine per shape (flags are re-placed through the public `State.final` attribute, the
+    model is put back to the initial configuration)"""
     ex = Exploration()
     shapes = list(nfinal.small_shapes(n))[lo:hi]
     for nodes, roots in shapes:
+        if time.time() > hard:
+            bump(ex.stats, 'small_scope_shapes_skipped_after_hard_deadline', n)
+            continue
+        bump(ex.stats, 'small_scope_shapes_done', n)
         d = nfinal.small_desc(nodes, roots, kind)
         try:
             with watchdog(600):
@@ -398,16 +429,8 @@ def flat_run(d, is_async):
     return flat.FlatRun(d).run()
 
 
-def judge_flat_case(case):
-    is_async = bool(case['async'])
-    d = (aflat.from_json if is_async else flat.FlatDesc.from_json)(copy.deepcopy(case['desc']))
+def flat_judge(case, d, ans, r):
     fails = []
-    ans = common.batch_driver([('flat', d.enc_case())])[0]
-    try:
-        with watchdog():
-            r = flat_run(d, is_async)
-    except Hang:
-        return [Failure('monitor', 'hang', case, {}, signature='C18.hang')], None
     probs = flat_oracle(d, r.items)
     if probs:
         fails.append(Failure('monitor', 'flat-final-event', case,
@@ -421,13 +444,29 @@ def judge_flat_case(case):
             fails.append(Failure('correspondence', 'flat_view_eq', case, {
                 'first_difference_at': k, 'model': [common.show_item(i) for i in a[max(0, k - 3):k + 3]],
                 'impl': [common.show_item(i) for i in b[max(0, k - 3):k + 3]]}))
-    return fails, r
+    return fails
 
 
-def chunk_flat(seed, idx, n, is_async):
+def flat_desc_of(case):
+    return (aflat.from_json if case['async'] else flat.FlatDesc.from_json)(copy.deepcopy(case['desc']))
+
+
+def judge_flat_case(case):
+    d = flat_desc_of(case)
+    ans = common.batch_driver([('flat', d.enc_case())])[0]
+    try:
+        with watchdog():
+            r = flat_run(d, bool(case['async']))
+    except Hang:
+        return [Failure('monitor', 'hang', case, {}, signature='C18.hang')], None
+    return flat_judge(case, d, ans, r), r
+
+
+def chunk_flat(seed, idx, n, is_async, deadline):
     rng = random.Random('C18/flat/%d/%d/%d' % (seed, idx, int(is_async)))
     ex = Exploration()
     kn = flat_knobs()
+    cases = []
     for _ in range(n):
         d = flat.gen_flat(rng, kn)
         flat_prepare(d, rng)
@@ -439,21 +478,32 @@ def chunk_flat(seed, idx, n, is_async):
                 for k in range(flat.DET_DEPTH):
                     d.script[(c, k)] = ((), out)
         dj = aflat.to_json(d) if is_async else d.to_json()
-        case = {'part': 'flat', 'async': int(is_async), 'desc': json.loads(json.dumps(dj))}
-        fs, r = judge_flat_case(case)
+        cases.append({'part': 'flat', 'async': int(is_async), 'desc': json.loads(json.dumps(dj))})
+    descs = [flat_desc_of(c) for c in cases]
+    answers = common.batch_driver([('flat', d.enc_case()) for d in descs])     # one driver batch per chunk
+    for k, (case, d, ans) in enumerate(zip(cases, descs, answers)):
+        if k >= 8 and time.time() > deadline:
+            bump(ex.stats, 'cases_not_run_after_deadline', 'flat', n - k)
+            break
+        try:
+            with watchdog():
+                r = flat_run(d, is_async)
+        except Hang:
+            ex.failures.append(Failure('monitor', 'hang', case, {}, signature='C18.hang'))
+            continue
+        fs = flat_judge(case, d, ans, r)
         ex.evaluations += 1
         ex.traces_validated += 1
         bump(ex.stats, 'class', 'AsyncMachine' if is_async else 'Machine')
         ex.failures += fs
-        if r is not None:
-            n_final = sum(1 for i in r.items if i[0] == 'call' and i[1] == SLOT['on_final'])
-            n_true = sum(1 for i in r.items if i[0] == 'ret' and i[2] == 1)
-            bump(ex.stats, 'flat_on_final_calls', min(n_final, 8))
-            if n_final and n_true:
-                ex.nontrivial.add('flat' + hashlib.sha1(repr(d.enc_case()).encode()).hexdigest()[:14])
-            if len(ex.samples) < 1 and n_final and not fs:
-                ex.samples.append({'part': 'flat', 'async': int(is_async),
-                                   'trace': [common.show_item(i) for i in r.items[:30]]})
+        n_final = sum(1 for i in r.items if i[0] == 'call' and i[1] == SLOT['on_final'])
+        n_true = sum(1 for i in r.items if i[0] == 'ret' and i[2] == 1)
+        bump(ex.stats, 'flat_on_final_calls', min(n_final, 8))
+        if n_final and n_true:
+            ex.nontrivial.add('flat' + hashlib.sha1(repr(d.enc_case()).encode()).hexdigest()[:14])
+        if len(ex.samples) < 1 and n_final and not fs:
+            ex.samples.append({'part': 'flat', 'async': int(is_async),
+                               'trace': [common.show_item(i) for i in r.items[:30]]})
     return ex
 
 
@@ -602,39 +652,41 @@ class C18(runner.Check):
                 'transitions aborted by an exception other than the root-scope AttributeError are not judged',
                 'flat theorems assume scripts that neither raise nor re-enter the API (C04/C05) and an unqueued machine; '
                 'the flat streams stay inside that domain',
-                'CODE_VARIANT in harness/props/c18.py selects the variant of the Lean model that mirrors /repo '
-                '(0 = as it is); it must be flipped together with the adoption of proposed_fixes/C18_1.diff / C18_2.diff']
+                'the variant of the Lean model that mirrors /repo follows the status of the findings '
+                'F-C18-final-check-loop-variable / F-C18-final-compound-never-fires in known_findings.json '
+                '(open = code as it is; fixed = the patched transcription, for which the stronger theorems '
+                'C18_nested_exact_leak_patched / C18_nested_exact_patched hold)']
 
     # -----------------------------------------------------------------------------------------
     def explore(self, tier, seed):
         t0 = time.time()
         ex = Exploration()
         ex.merge(chunk_corpus())
-        quick = tier == 'quick'
-        payloads = []
-        if quick:
-            payloads += [(chunk_nested, (seed, i, 45, tier)) for i in range(32)]
-            payloads += [(chunk_flat, (seed, i, 40, False)) for i in range(8)]
-            payloads += [(chunk_flat, (seed, i, 30, True)) for i in range(8)]
-            small = [(1, 0), (2, 0), (3, 0), (4, 0), (3, 1)]
-            deadline = t0 + 40
+        if tier == 'quick':
+            soft, hard = t0 + 25, t0 + 40
+            small = [(1, 0), (2, 0), (3, 0), (4, 0), (3, 1), (4, 1), (5, 0)]
+            rand = [(chunk_nested, (seed, i, 70, soft)) for i in range(32)]
+            rand += [(chunk_flat, (seed, i, 40, False, soft)) for i in range(8)]
+            rand += [(chunk_flat, (seed, i, 30, True, soft)) for i in range(8)]
         else:
-            payloads += [(chunk_nested, (seed, i, 300, tier)) for i in range(48)]
-            payloads += [(chunk_flat, (seed, i, 300, False)) for i in range(16)]
-            payloads += [(chunk_flat, (seed, i, 200, True)) for i in range(16)]
-            small = [(1, 0), (2, 0), (3, 0), (4, 0), (5, 0), (6, 0), (1, 1), (2, 1), (3, 1), (4, 1)]
-            deadline = t0 + 330
-        sp = []
+            soft, hard = t0 + 300, t0 + 450
+            small = [(1, 0), (2, 0), (3, 0), (4, 0), (1, 1), (2, 1), (3, 1), (4, 1), (5, 0), (6, 0)]
+            rand = [(chunk_nested, (seed, i, 200, soft)) for i in range(48)]
+            rand += [(chunk_flat, (seed, i, 250, False, soft)) for i in range(16)]
+            rand += [(chunk_flat, (seed, i, 150, True, soft)) for i in range(16)]
+        # order of work on the pool: complete small scopes (<= 4 states), the random streams, then the large
+        # small scopes (5, 6 states) which thin out (every 8th placement) after `soft` and stop after `hard`
+        first, last = [], []
         for n, kind in small:
             total = sum(1 for _ in nfinal.small_shapes(n))
-            per = 1 if n >= 6 else (4 if n == 5 else 8)
+            per = 2 if n >= 6 else (4 if n == 5 else 8)
             for lo in range(0, total, per):
-                sp.append((chunk_small, (n, lo, min(total, lo + per), kind, deadline, 8)))
-        # biggest work first, small-scope chunks interleaved
-        rnd = random.Random(seed)
-        rnd.shuffle(sp)
-        payloads = sp + payloads
-        for part in runner.parallel(_dispatch, payloads):
+                (first if n <= 4 else last).append((chunk_small, (n, lo, min(total, lo + per), kind,
+                                                                  soft if n >= 5 else hard + 10 ** 6,
+                                                                  hard if n >= 5 else hard + 10 ** 6, 8)))
+        random.Random(seed).shuffle(last)     # no systematic bias in which 6-state shapes are thinned out
+        last.sort(key=lambda p: p[1][0])      # 5 states before 6 states
+        for part in runner.parallel(_dispatch, first + rand + last):
             ex.merge(part)
         self.shrink_all(ex)
         return ex
@@ -660,9 +712,10 @@ class C18(runner.Check):
 
     def search(self, tier, seed, failures):
         found = []
-        payloads = [(chunk_nested, (seed + 7919, i, 150, 'thorough')) for i in range(32)]
-        payloads += [(chunk_flat, (seed + 7919, i, 150, False)) for i in range(8)]
-        payloads += [(chunk_flat, (seed + 7919, i, 100, True)) for i in range(8)]
+        soft = time.time() + 150
+        payloads = [(chunk_nested, (seed + 7919, i, 150, soft)) for i in range(32)]
+        payloads += [(chunk_flat, (seed + 7919, i, 150, False, soft)) for i in range(8)]
+        payloads += [(chunk_flat, (seed + 7919, i, 100, True, soft)) for i in range(8)]
         known = set(k.get('signature') for k in self.known())
         for part in runner.parallel(_dispatch, payloads):
             found += [f for f in part.failures if f.kind == 'monitor' and f.signature not in known]
